@@ -67,83 +67,106 @@ inductive Stmt
 
 abbrev Prog := List Stmt
 
-/-- is the value taken at some point still used later? (non-lexical lifetimes) -/
+/-- is the outstanding value `x` still used later? (non-lexical lifetimes: a borrow without drop
+    glue ends at its last use) -/
 def usedLater : Prog → Bool
   | [] => false
   | .useX :: _ => true
   | .take _ :: _ => false
   | _ :: rest => usedLater rest
 
-def autoOk (b : AutoBound) (needSend : Bool) (k : ElemKind) : Bool :=
-  match b with
-  | .send => needSend && k != .rc || (!needSend) && false
-  | .sync => (!needSend) && k == .plain
-  | _ => false
-
 def sendBound : Holder → AutoBound
   | .vec => unsafeImplSendMiniVec | .intoIter => unsafeImplSendIntoIter | .drain => unsafeImplSendDrain
 def syncBound : Holder → AutoBound
   | .vec => unsafeImplSyncMiniVec | .intoIter => unsafeImplSyncIntoIter | .drain => unsafeImplSyncDrain
 
-/-- `loan`: the borrow kind of the outstanding value, if it is still live -/
-def check (k : ElemKind) : Option Borrow → Prog → Bool
+/-- checker state: the outstanding named value (`x`): what it borrows and whether its type has drop
+    glue (then the borrow lasts until the value is consumed or the scope ends); the borrows of
+    shadowed values with drop glue (alive to the end of the scope); whether `v` was moved out -/
+structure CkSt where
+  cur : Option (Borrow × Bool) := none
+  pend : List Borrow := []
+  moved : Bool := false
+
+def loanConflicts (b : Borrow) (r : Recv) : Bool :=
+  match b with
+  | .mut_ => true
+  | .shared => r == .refMut || r == .owned
+  | _ => false
+
+/-- does a use of `v` with receiver kind `r` conflict with a live loan? -/
+def conflicts (st : CkSt) (rest : Prog) (r : Recv) : Bool :=
+  st.pend.any (fun b => loanConflicts b r) ||
+  (match st.cur with
+   | some (b, glue) => (glue || usedLater rest) && loanConflicts b r
+   | none => false)
+
+def check (k : ElemKind) : CkSt → Prog → Bool
   | _, [] => true
-  | loan, .take api :: rest =>
-    let conflict := match loan with
-      | some .mut_ => usedLater rest
-      | some .shared => usedLater rest && (recv api == .refMut || recv api == .owned)
-      | _ => false
-    !conflict && check k (match borrow api with | .mut_ => some .mut_ | .shared => some .shared | _ => none) rest
-  | loan, .useVec api :: rest =>
-    let live := usedLater rest
-    let conflict := match loan with
-      | some .mut_ => live
-      | some .shared => live && (recv api == .refMut || recv api == .owned)
-      | _ => false
-    !conflict && check k loan rest
-  | loan, .useX :: rest => check k loan rest
-  | loan, .endVec :: rest =>
-    let conflict := match loan with
-      | some .mut_ | some .shared => usedLater rest
-      | _ => false
-    !conflict && check k loan rest
-  | loan, .send h :: rest => (sendBound h == .send && k != .rc) && check k loan rest
-  | loan, .share h :: rest => (syncBound h == .sync && k == .plain) && check k loan rest
+  | st, .take api :: rest =>
+    -- the new binding shadows `x`: the old value is not used again, only its drop glue keeps it alive
+    if st.moved || conflicts st [] (recv api) then false
+    else
+      let pend := match st.cur with
+        | some (b, true) => b :: st.pend
+        | _ => st.pend
+      check k { st with cur := some (borrow api, resultHasDrop api), pend := pend } rest
+  | st, .useVec api :: rest =>
+    if st.moved || conflicts st rest (recv api) then false else check k st rest
+  | st, .useX :: rest =>
+    (match st.cur with
+     | none => false
+     | some _ => check k { st with cur := none } rest)
+  | st, .endVec :: rest =>
+    if st.moved || conflicts st rest .owned then false else check k { st with moved := true } rest
+  | st, .send h :: rest => (sendBound h == .send && k != .rc) && check k st rest
+  | st, .share h :: rest => (syncBound h == .sync && k == .plain) && check k st rest
 
 /-- (a) using or ending the vector while a value derived from a MUTABLE borrow of it is still live
-    is rejected — for every API whose result borrows mutably, every prefix and every suffix -/
-theorem C16_mut_borrow_excludes_use (k : ElemKind) (api api' : Api) (mid rest : Prog)
-    (hb : borrow api = .mut_) (hmid : mid = []) :
-    check k none (.take api :: mid ++ .useVec api' :: .useX :: rest) = false ∧
-    check k none (.take api :: mid ++ .endVec :: .useX :: rest) = false := by
-  subst hmid
-  simp [check, hb, usedLater]
+    is rejected — for every API whose result borrows mutably and every continuation -/
+theorem C16_mut_borrow_excludes_use (k : ElemKind) (api api' : Api) (rest : Prog)
+    (hb : borrow api = .mut_) :
+    check k {} (.take api :: .useVec api' :: .useX :: rest) = false ∧
+    check k {} (.take api :: .endVec :: .useX :: rest) = false := by
+  constructor <;> simp [check, conflicts, loanConflicts, hb, usedLater]
 
-/-- (a') … and while a SHARED borrow is live, every mutating or consuming use is rejected -/
+/-- a value with drop glue (Drain, Splice, DrainFilter) keeps the vector borrowed until it is consumed,
+    even if it is never used again -/
+theorem C16_drop_glue_extends_borrow (k : ElemKind) (api api' : Api) (rest : Prog)
+    (hb : borrow api = .mut_) (hd : resultHasDrop api = true) :
+    check k {} (.take api :: .useVec api' :: rest) = false := by
+  simp [check, conflicts, loanConflicts, hb, hd]
+
+theorem C16_draining_iterators_have_drop_glue :
+    resultHasDrop .drain = true ∧ resultHasDrop .splice = true ∧ resultHasDrop .drain_filter = true := by
+  decide
+
+/-- (a') while a SHARED borrow is live, every mutating or consuming use is rejected -/
 theorem C16_shared_borrow_excludes_mutation (k : ElemKind) (api api' : Api) (rest : Prog)
     (hb : borrow api = .shared) (hm : recv api' = .refMut ∨ recv api' = .owned) :
-    check k none (.take api :: .useVec api' :: .useX :: rest) = false ∧
-    check k none (.take api :: .endVec :: .useX :: rest) = false := by
-  rcases hm with hm | hm <;> simp [check, hb, hm, usedLater]
+    check k {} (.take api :: .useVec api' :: .useX :: rest) = false ∧
+    check k {} (.take api :: .endVec :: .useX :: rest) = false := by
+  rcases hm with hm | hm <;> simp [check, conflicts, loanConflicts, hb, hm, usedLater]
 
-/-- (d) the twin without the later use of the borrowed value is accepted -/
+/-- (d) the twin in which the borrowed value is consumed first is accepted -/
 theorem C16_twin_accepted (k : ElemKind) (api api' : Api) :
-    check k none [.take api, .useX, .useVec api'] = true ∧ check k none [.take api, .useX, .endVec] = true := by
-  simp [check, usedLater]
-  cases borrow api <;> simp
+    check k {} [.take api, .useX, .useVec api'] = true ∧ check k {} [.take api, .useX, .endVec] = true := by
+  simp [check, conflicts, usedLater]
 
 /-- (c) moving a `MiniVec`/`IntoIter`/`Drain` to another thread is rejected iff the elements are
     not `Send`; sharing iff they are not `Sync` -/
 theorem C16_thread_safety (h : Holder) :
-    check .rc none [.send h] = false ∧ check .plain none [.send h] = true ∧ check .cell none [.send h] = true ∧
-    check .cell none [.share h] = false ∧ check .rc none [.share h] = false ∧ check .plain none [.share h] = true := by
+    check .rc {} [.send h] = false ∧ check .plain {} [.send h] = true ∧ check .cell {} [.send h] = true ∧
+    check .cell {} [.share h] = false ∧ check .rc {} [.share h] = false ∧ check .plain {} [.share h] = true := by
   cases h <;> decide
 
 /-! the mini-language is not degenerate: some programs are accepted, some rejected -/
-example : check .plain none [.take .drain, .useVec .len, .useX] = false := by decide
-example : check .plain none [.take .drain, .useX, .useVec .len] = true := by decide
-example : check .plain none [.take .as_slice, .useVec .len, .useX] = true := by decide
-example : check .plain none [.take .as_slice, .useVec .push, .useX] = false := by decide
+example : check .plain {} [.take .drain, .useVec .len, .useX] = false := by decide
+example : check .plain {} [.take .drain, .useX, .useVec .len] = true := by decide
+example : check .plain {} [.take .drain, .useVec .len] = false := by decide
+example : check .plain {} [.take .as_slice, .useVec .len, .useX] = true := by decide
+example : check .plain {} [.take .as_slice, .useVec .push, .useX] = false := by decide
+example : check .plain {} [.take .as_mut_slice, .useVec .push] = true := by decide
 
 end MV.Props.C16
 
@@ -153,6 +176,8 @@ end MV.Props.C16
 #print axioms MV.Props.C16.C16_markers
 #print axioms MV.Props.C16.C16_send_sync_bounds
 #print axioms MV.Props.C16.C16_mut_borrow_excludes_use
+#print axioms MV.Props.C16.C16_drop_glue_extends_borrow
+#print axioms MV.Props.C16.C16_draining_iterators_have_drop_glue
 #print axioms MV.Props.C16.C16_shared_borrow_excludes_mutation
 #print axioms MV.Props.C16.C16_twin_accepted
 #print axioms MV.Props.C16.C16_thread_safety
